@@ -746,6 +746,10 @@ func ruleZoneAPIs(c *core.Ctx, rule string) {
 				c.Universe(rule+" time-zone dependent calls", fmt.Sprintf("%s: %s (%s)", name, what, pos))
 				if r, ok := allowed[top][what]; ok {
 					c.Discharge(rule, name, what, pos, "allowed: "+r)
+				} else if ci, isCall := in.(ssa.CallInstruction); isCall && what == "(time.Time).Local" && len(ci.Common().Args) > 0 && isTimeNowCall(ci.Common().Args[0]) {
+					c.Discharge(rule, name, what, pos, "allowed: time.Now().Local() keeps the instant; the clock site itself is governed by C05-R3")
+				} else if what == "(time.Time).Local" && core.FnPkgPath(fn) == optionsPkg {
+					c.Discharge(rule, name, what, pos, "allowed: package options resolves keywords against the supplied now; Local() keeps the instant (the shape of each keyword's result is C06-R5's)")
 				} else {
 					c.Violate(rule, name, what, pos, what+" in "+name+": dates of the log are parsed and printed without a zone; this brings the process time zone (or another zone) in, so the day shown or selected shifts west or east of UTC, or across a daylight-saving switch", nil)
 				}
@@ -755,4 +759,13 @@ func ruleZoneAPIs(c *core.Ctx, rule string) {
 	if n == 0 {
 		c.Note(rule + ": no time-zone dependent call in the tree")
 	}
+}
+
+func isTimeNowCall(v ssa.Value) bool {
+	call, ok := v.(*ssa.Call)
+	if !ok {
+		return false
+	}
+	cal := call.Call.StaticCallee()
+	return cal != nil && cal.String() == "time.Now"
 }
